@@ -158,3 +158,225 @@ Example C18_append_example :
       (append (append [] (mkE (tick 2026 1 9 15 0) 1 0 0 0 1)) (mkE (tick 2026 1 9 16 0) 1 0 0 1 5))
   = [[1; 5]].
 Proof. vm_compute. reflexivity. Qed.
+
+(* ====================================================================== *)
+(* Composition with the scheduler (C03 / C05): Model/SchedChron.v runs a    *)
+(* scheduler history -- Sched.step events, each with the reading of the     *)
+(* wall clock -- and feeds every history-entry output of the scheduler      *)
+(* (Hand._res -> schedule.complete -> chronicle.append) to Chron.complete.  *)
+(* tc / kc: any coding of target / algorithm names; entry id = event index. *)
+(* ====================================================================== *)
+From DV Require Import Model.Sched Model.SchedChron Proofs.SchedLib Proofs.SchedBatch Proofs.SchedC03
+     Proofs.SchedExact Proofs.SchedChronProofs.
+Local Open Scope nat_scope.
+
+(* ---- along EVERY scheduler history from boot the journal is, as a sequence,
+   the journal of the replies the scheduler applied (a reply is applied iff its
+   job is still queued when it arrives: `applied`), appended in completion
+   order, each with the run id, target, task and status of its reply and the
+   clock reading of its event:
+   (1) the scheduler component is the plain scheduler run;
+   (2) sequence equality; (3) file by file, in completion order; (4) as a
+   multiset; (5) no entry is duplicated (ids are event indices);
+   (6) event by event: a reply that finds its job writes exactly one entry --
+       the only one with its id; EXCEPTION CLAUSE: a reply that does not find
+       its job (output ODropped: IndexError in schedule.find, the open known
+       finding C03 reply-dropped) leaves no entry, and these replies and the
+       non-reply events are exactly the events without entry; a reply whose
+       unit the scheduler still counts as doing always finds its job ---- *)
+Theorem C18_every_run_recorded_once : forall tc kc c (tes : list tev),
+  let sj := sc_boot tc kc c tes in
+  let j := snd sj in
+  let A := applied tc kc c (init c) 0%Z tes in
+  fst sj = fst (run c (init c) (map snd tes)) /\
+  j = fold_left append A [] /\
+  (wf j /\ forall d r, lookup j d r = filter (in_file d r) A) /\
+  Permutation (all_entries j) A /\
+  NoDup (map e_id (all_entries j)) /\
+  forall (pre : list tev) now e (post : list tev), tes = pre ++ (now, e) :: post ->
+    let s := fst (run c (init c) (map snd pre)) in
+    let i := Z.of_nat (length pre) in
+    match e with
+    | Rep w x t r o vs =>
+        (mem x (que s) = true ->
+           snd (step c s e) = [OChron x t r o] /\
+           In (entry_of tc kc now i x t r o) (all_entries j) /\
+           forall e', In e' (all_entries j) -> e_id e' = i -> e' = entry_of tc kc now i x t r o) /\
+        (mem x (que s) = false ->
+           snd (step c s e) = [ODropped x] /\ ~ In i (map e_id (all_entries j))) /\
+        (In t (doing (getn (ns s) x)) -> mem x (que s) = true)
+    | _ => ~ In i (map e_id (all_entries j))
+    end.
+Proof.
+  intros tc kc c tes sj j A.
+  assert (E : sj = (fst (run c (init c) (map snd tes)), fold_left append A [])) by apply SC_run_spec.
+  assert (Ej : j = fold_left append A []) by (unfold j; rewrite E; reflexivity).
+  assert (P : Permutation (all_entries j) A) by (rewrite Ej; apply C_all_history).
+  assert (N : NoDup (map e_id (all_entries j))).
+  { apply (Permutation_NoDup (Permutation_map e_id (Permutation_sym P))). apply SC_applied_nodup. }
+  split; [rewrite E; reflexivity|]. split; [exact Ej|].
+  split; [split; [rewrite Ej; apply C_wf_history|intros d r; rewrite Ej, SC_lookup_history; reflexivity]|].
+  split; [exact P|]. split; [exact N|].
+  intros pre now e post Et s i.
+  destruct (SC_applied_at tc kc c pre now e post) as [Hin Hout]. fold s i in Hin, Hout. rewrite <- Et in Hin, Hout.
+  fold A in Hin, Hout.
+  assert (Out : applies s e = false -> ~ In i (map e_id (all_entries j))).
+  { intros Ha Hi. apply (Hout Ha). apply (Permutation_in i (Permutation_map e_id P)). exact Hi. }
+  destruct e; try (apply Out; reflexivity).
+  cbn [applies reply_entry] in Hin, Out. split; [|split].
+  - intros Hq. split; [rewrite SC_step_rep_outs; apply (reply_applied c x t r o values s Hq)|].
+    assert (I1 : In (entry_of tc kc now i x t r o) (all_entries j)).
+    { apply (Permutation_in _ (Permutation_sym P)). apply (Hin Hq). left. reflexivity. }
+    split; [exact I1|]. intros e' He' Hid.
+    apply (SC_nodup_map_inj e_id (all_entries j)); [exact N|exact He'|exact I1|exact Hid].
+  - intros Hq. split; [rewrite SC_step_rep_outs; apply (reply_dropped c x t r o values s Hq)|apply Out; exact Hq].
+  - intros Hd. apply (doing_reply_found c s x t); [|exact Hd]. apply run_Inv. apply init_Inv.
+Qed.
+Print Assumptions C18_every_run_recorded_once.
+
+(* ---- in CLEAN histories (Proofs/SchedExact.v: every reply is for a unit some
+   worker holds, no failed run of X arrives while a strict dependent of X
+   executes the same target -- the overlap of the open known finding --, a
+   rebuild happens with nothing executing) no reply is dropped: the journal is
+   the journal of ALL replies of the history ---- *)
+Theorem C18_every_reply_recorded_clean : forall tc kc c (tes : list tev),
+  clean_run c (init c) (map snd tes) ->
+  dropped c (init c) 0%Z tes = [] /\
+  snd (sc_boot tc kc c tes) = fold_left append (replies tc kc 0%Z tes) [] /\
+  Permutation (all_entries (snd (sc_boot tc kc c tes))) (replies tc kc 0%Z tes).
+Proof.
+  intros tc kc c tes Cr. destruct (init_exact c) as (Ex & Sg & Nq).
+  destruct (SC_clean_applied tc kc c tes (init c) 0%Z (init_Inv c) Ex Sg Nq Cr) as [EA ED].
+  destruct (C18_every_run_recorded_once tc kc c tes) as (_ & Ej & _ & P & _).
+  rewrite EA in Ej, P. repeat split; assumption.
+Qed.
+Print Assumptions C18_every_reply_recorded_clean.
+
+(* ---- REFUTED without the exception clause (the C18 face of the open known
+   finding C03 reply-dropped, witness of C03_single_flight_refuted with a clock):
+   worker 3 holds the unit (a1, T) and answers it (event 11); the job left the
+   queue on the reply of worker 1 (event 10, the duplicate flight after purge):
+   the completed run of worker 3 has no journal entry ---- *)
+Theorem C18_dropped_reply_unrecorded :
+  exists c (pre : list tev) now w x t r o vs,
+    let tes := pre ++ [(now, Rep w x t r o vs)] in
+    let s := fst (run c (init c) (map snd pre)) in
+    (exists m, In (w, m) (inflight s) /\ msg_unit m = (x, t)) /\     (* the worker really ran the unit *)
+    snd (step c s (Rep w x t r o vs)) = [ODropped x] /\
+    ~ In (Z.of_nat (length pre)) (map e_id (all_entries (snd (sc_boot zc zc c tes)))) /\
+    map e_id (all_entries (snd (sc_boot zc zc c tes))) = [7; 10]%Z.
+Proof.
+  exists sc_chain, (firstn 11 sc_witness), (nth 11 (map fst sc_witness) 0%Z), 3, 1, 1, 1%Z, Success, [(1, 1, true)].
+  cbn zeta. split; [|split; [|split]].
+  - exists {| m_job := 1; m_tgt := 1; m_rid := 1%Z; m_fac := Task |}. vm_compute. auto.
+  - vm_compute. reflexivity.
+  - vm_compute. intros [H|[H|[]]]; discriminate.
+  - vm_compute. reflexivity.
+Qed.
+Print Assumptions C18_dropped_reply_unrecorded.
+
+(* ---- find over the journal the scheduler wrote, for every history, window,
+   limit, outcome and clock: exactly the applied replies of the requested
+   outcome completed strictly inside the window, newest first; before / limit
+   only: the newest `limit` of them (C18_window / C18_newest / C18_after
+   composed with C18_every_run_recorded_once; no hypothesis left) ---- *)
+Theorem C18_find_returns_applied : forall tc kc c (tes : list tev) succ now,
+  let j := snd (sc_boot tc kc c tes) in
+  let A := applied tc kc c (init c) 0%Z tes in
+  (forall a b limit, exists l,
+     Chron.find greg j (Some a) (Some b) limit succ now = Ok l /\
+     Permutation l (filter (in_window a b (status_code succ)) A) /\ StronglySorted key_ge l) /\
+  (forall before limit, before <> None \/ limit <> None ->
+     let b := match before with None => now | Some t => t end in
+     exists l, Permutation l (filter (in_window 0 b (status_code succ)) A) /\ StronglySorted key_ge l /\
+       Chron.find greg j None before limit succ now
+       = Ok (match limit with None => l | Some n => firstn (Z.to_nat n) l end)) /\
+  (forall a, exists l,
+     Chron.find greg j (Some a) None None succ now = Ok l /\
+     Permutation l (filter (in_window a now (status_code succ)) A) /\ StronglySorted key_ge l).
+Proof.
+  intros tc kc c tes succ now j A.
+  destruct (C18_every_run_recorded_once tc kc c tes) as (_ & _ & [W _] & P & _). fold j A in W, P.
+  split; [|split].
+  - intros a b limit. destruct (C18_window greg j a b limit succ now C_greg_ok W) as (l & F & Pl & S).
+    exists l. split; [exact F|]. split; [|exact S].
+    eapply Permutation_trans; [exact Pl|apply C_perm_filter; exact P].
+  - intros before limit Hs b. destruct (C18_newest greg j before limit succ now C_greg_ok W Hs) as (l & Pl & S & F).
+    exists l. split; [|split; [exact S|exact F]].
+    eapply Permutation_trans; [exact Pl|apply C_perm_filter; exact P].
+  - intros a. destruct (C18_after greg j a succ now C_greg_ok W) as (l & F & Pl & S).
+    exists l. split; [exact F|]. split; [|exact S].
+    eapply Permutation_trans; [exact Pl|apply C_perm_filter; exact P].
+Qed.
+Print Assumptions C18_find_returns_applied.
+
+(* ---- with a strictly increasing clock (no two events read the same time) the
+   answer is determined as a list: the applied replies of the window in
+   REVERSE completion order; with a limit the first `limit` of that list ---- *)
+Theorem C18_find_returns_applied_in_order : forall tc kc c (tes : list tev) succ now,
+  StronglySorted Z.lt (map fst tes) ->
+  let j := snd (sc_boot tc kc c tes) in
+  let A := applied tc kc c (init c) 0%Z tes in
+  let W a b := rev (filter (in_window a b (status_code succ)) A) in
+  (forall a b limit, Chron.find greg j (Some a) (Some b) limit succ now = Ok (W a b)) /\
+  (forall before limit, before <> None \/ limit <> None ->
+     let b := match before with None => now | Some t => t end in
+     Chron.find greg j None before limit succ now
+     = Ok (match limit with None => W 0%Z b | Some n => firstn (Z.to_nat n) (W 0%Z b) end)) /\
+  (forall a, Chron.find greg j (Some a) None None succ now = Ok (W a now)).
+Proof.
+  intros tc kc c tes succ now Hc j A W.
+  pose proof (SC_applied_sorted tc kc c tes (init c) 0%Z Hc) as SA. fold A in SA.
+  destruct (C18_find_returns_applied tc kc c tes succ now) as (F1 & F2 & F3). fold j A in F1, F2, F3.
+  split; [|split].
+  - intros a b limit. destruct (F1 a b limit) as (l & F & P & S).
+    rewrite F. f_equal. apply (SC_newest_first_rev A l _ SA P S).
+  - intros before limit Hs b. destruct (F2 before limit Hs) as (l & P & S & F).
+    rewrite F. rewrite (SC_newest_first_rev A l _ SA P S). reflexivity.
+  - intros a. destruct (F3 a) as (l & F & P & S).
+    rewrite F. f_equal. apply (SC_newest_first_rev A l _ SA P S).
+Qed.
+Print Assumptions C18_find_returns_applied_in_order.
+
+(* ---- non-vacuity ---- *)
+(* the composed theorems speak about histories in which entries are written,
+   on two days, and a reply is dropped: the witness history (12 events, clock
+   crossing midnight): entries of events 7 (failure) and 10 (success), reply 11
+   dropped; the window query over both days returns the success entry, the
+   failure query the failed run; the clock of a clean prefix is increasing *)
+Example C18_composition_example :
+  let j := snd (sc_boot zc zc sc_chain sc_witness) in
+  jfiles j = [ (day_of (tick 2026 1 9 0 0), 1, [7]); (day_of (tick 2026 1 10 0 0), 1, [10]) ]%Z /\
+  map e_id (applied zc zc sc_chain (init sc_chain) 0%Z sc_witness) = [7; 10]%Z /\
+  dropped sc_chain (init sc_chain) 0%Z sc_witness = [11]%Z /\
+  ids (Chron.find greg j (Some (tick 2026 1 9 0 0)) (Some (tick 2026 1 11 0 0)) None true 0%Z) = [10]%Z /\
+  ids (Chron.find greg j None None (Some 5%Z) false (tick 2026 1 11 0 0)) = [7]%Z.
+Proof. vm_compute. repeat split; reflexivity. Qed.
+
+(* a clean history with a strictly increasing clock and two replies: both recorded *)
+Definition sc_clean_ex : list tev :=
+  [ (10%Z, Reg 1 0 true); (15%Z, Reg 2 0 true); (20%Z, Org [0; 1] None [1]); (30%Z, Tick);
+    (tick 2026 1 9 23 59, Rep 1 0 1 1%Z Success [(1, 0, true)]); (tick 2026 1 10 0 1, Tick);
+    (tick 2026 1 10 0 2, Rep 2 1 1 1%Z Failure []) ].
+Example C18_clean_example :
+  clean_run sc_chain (init sc_chain) (map snd sc_clean_ex) /\
+  StronglySorted Z.lt (map fst sc_clean_ex) /\
+  map e_id (replies zc zc 0%Z sc_clean_ex) = [4; 6]%Z /\
+  ids (Chron.find greg (snd (sc_boot zc zc sc_chain sc_clean_ex)) (Some 0%Z) (Some (tick 2026 1 11 0 0)) None false 0%Z)
+  = [6]%Z.
+Proof.
+  split; [|split; [|split]].
+  - cbn [clean_run map snd sc_clean_ex]. repeat (split; [exact I|]).
+    split; [|split; [exact I|split; [|exact I]]].
+    + unfold clean. split; [|split].
+      * exists {| m_job := 0; m_tgt := 1; m_rid := 1%Z; m_fac := Task |}. vm_compute. auto.
+      * intros H. exfalso. apply H. reflexivity.
+      * intros E. discriminate.
+    + unfold clean. split; [|split].
+      * exists {| m_job := 1; m_tgt := 1; m_rid := 1%Z; m_fac := Task |}. vm_compute. auto.
+      * intros _ y Ny _. vm_compute. intros [H|[]]. inversion H. congruence.
+      * intros E. discriminate.
+  - vm_compute. repeat constructor.
+  - vm_compute. reflexivity.
+  - vm_compute. reflexivity.
+Qed.
